@@ -43,6 +43,8 @@ def random_grammar(r):
         return common.permuted_pairs_grammar(r)
     if k < 0.10:
         return common.dag_grammar(r)
+    if k > 0.92:
+        return common.described_groups_grammar(r)
     if k < 0.20:
         # top-level only: inside a word the family can juxtapose literals within a group, which the pinned
         # compiler rejects (finding KF-I, owned by C08); callers of random_grammar expect accepted grammars
